@@ -49,10 +49,12 @@ def main():
     res = []
     try:
         for m in muts:
+            if m.get("skip"):
+                continue
             sync()
             apply(m["edits"])
             env = dict(os.environ, VERIF_REPO=SCRATCH, VERIF_EVIDENCE_DIR=tmp + "/ev", VERIF_REPORT_DIR=tmp)
-            for prop in ([m["property"]] + m.get("also", [])):
+            for prop in ([m["property"]] + [a for a in m.get("also", []) if a not in m.get("also_expect_none", [])]):
                 r = subprocess.run([os.path.join(VERIF, "check"), prop], env=env, capture_output=True, text=True)
                 out = r.stdout + r.stderr
                 viol = "VIOLATION property=" in out
